@@ -237,6 +237,20 @@ fn grid(n: u32, base: u64) -> Vec<AcceptCase> {
             out.push(AcceptCase { f_current: Fb::of(fc), f_candidate: Fb::of(fnew), t: Fb::of(*t), n: n.min(500), seed: base.wrapping_add(977 + j as u64), below: (j % 3) as u8 });
         }
     }
+    // huge objective values whose difference is a few representable steps, temperature of the order of the difference:
+    // the rule depends on the difference, which is exact, not on the two levels
+    for fc in [1.8013179654324308e16, 9007199254740992.0, -3.3e15, 1e12, 6.02e23] {
+        for steps in [1i64, 2, 5] {
+            let mut fnew: f64 = fc;
+            for _ in 0..steps {
+                fnew = crate::props::c10::next_up(fnew);
+            }
+            let delta = fnew - fc;
+            for factor in [0.35, 0.7, 1.5, 3.0] {
+                out.push(AcceptCase { f_current: Fb::of(fc), f_candidate: Fb::of(fnew), t: Fb::of(delta * factor), n, seed: base ^ (steps as u64 * 131) ^ ((factor * 100.0) as u64), below: 0 });
+            }
+        }
+    }
     // cells in the informative region 0.01 < p < 0.99
     for ratio in [0.02, 0.1, 0.3, 0.7, 1.0, 1.5, 2.5, 4.0] {
         for t in [0.01, 1.0, 250.0] {
@@ -259,7 +273,7 @@ pub fn run_all(ctx: &mut Ctx, replay: Option<&Path>) {
     ctx.regressions(&m);
     let n = ctx.tier.pick(2000, 20_000);
     let base = ctx.derive_seed("sa");
-    ctx.exhaustive(&a, &format!("9 margins x 7 temperatures (+ shifted objective levels) + 21 cells with +inf objective values (tie / infeasible candidate / infeasible current) + 24 cells with exp(-delta/T) in (0.01, 0.99), N = {n} seeds per cell"), grid(n, base).into_iter());
+    ctx.exhaustive(&a, &format!("9 margins x 7 temperatures (+ shifted objective levels) + 21 cells with +inf objective values (tie / infeasible candidate / infeasible current) + 60 cells with huge objective levels 1-5 representable steps apart and T of the order of the difference + 24 cells with exp(-delta/T) in (0.01, 0.99), N = {n} seeds per cell"), grid(n, base).into_iter());
     ctx.random(
         &a,
         (-50.0f64..50.0, prop_oneof![Just(0.0), -5.0f64..0.0, 0.0f64..8.0], prop_oneof![Just(1e-6), Just(0.5), Just(1.0), Just(3.0), 0.01f64..20.0], any::<u64>(), 0u8..3).prop_map(move |(fc, d, t, seed, below)| AcceptCase { f_current: Fb::of(fc), f_candidate: Fb::of(fc + d), t: Fb::of(t), n: 600, seed, below }),
